@@ -19,6 +19,9 @@ verus! {
 //@include spec/driver_std.spec.rs
 //@include spec/driver.spec.rs
 
+// (contract only; lets a change that starts using the width mask here still be decided)
+//@decl bit_mask
+
 impl EntryIndex {
 //@decl EntryIndex.signal_index
 }
